@@ -140,7 +140,91 @@ def property_on_impl(m, obs):
     return None
 
 
+def action_property(m, rng, seed=None):
+    """sources and loads *act* on exactly the pulse named: the diagonal of the matrix gets the load's term on the
+    pulses the attachments name (as often as they name them; rows of the printed geometry table are the reference),
+    nothing else changes; the right-hand side is non-zero exactly on the named source pulse.  Attachments of one
+    load may overlap (`all` plus a single pulse, both forms for one pulse)."""
+    import random
+    from mininec.mininec import Excitation, Impedance_Load
+    rng = random.Random(seed) if seed is not None else rng
+    blocks = [b for b in geometry_blocks(m)]
+    N = len(m.pulses)
+    if N == 0:
+        return None
+    rows = {b['tag']: [x - 1 for x in b['rows']] for b in blocks}
+    nonempty = [t for t in rows if rows[t]]
+    zl = complex(37.0, 11.0)
+    ld = Impedance_Load(zl)
+    want = {}
+    desc = []
+    for _ in range(rng.choice([1, 2, 2, 3])):
+        form = rng.choice(['abs', 'rel', 'allobj', 'all', 'both-forms'])
+        if form in ('rel', 'allobj', 'both-forms') and not nonempty:
+            form = 'abs'
+        if form == 'abs':
+            p = rng.randrange(N); m.register_load(ld, p); named = [p]; desc.append('pulse %d' % (p + 1))
+        elif form == 'rel':
+            t = rng.choice(nonempty); k = rng.randrange(len(rows[t])); m.register_load(ld, k, t); named = [rows[t][k]]
+            desc.append('pulse %d of object %d' % (k + 1, t))
+        elif form == 'allobj':
+            t = rng.choice(nonempty); m.register_load(ld, None, t); named = list(rows[t]); desc.append('all of object %d' % t)
+        elif form == 'all':
+            m.register_load(ld); named = list(range(N)); desc.append('all')
+        else:
+            t = rng.choice(nonempty); k = rng.randrange(len(rows[t])); p = rows[t][k]
+            m.register_load(ld, k, t); m.register_load(ld, p); named = [p, p]
+            desc.append('pulse %d of object %d and absolute pulse %d' % (k + 1, t, p + 1))
+        for p in named:
+            want[p] = want.get(p, 0) + 1
+    try:
+        m.compute_impedance_matrix()
+        Z0 = m.Z.copy()
+        m.compute_impedance_matrix_loads()
+        dZ = m.Z - Z0
+    finally:
+        if ld in m.loads:
+            m.loads.remove(ld)
+        m.Z = None
+    exp = np.zeros((N, N), dtype=complex)
+    for p, c in want.items():
+        g = 2.0 if (m.media and m.pulses[p].ground.any()) else 1.0
+        exp[p, p] = -1j * g / m.m * zl * c
+    sc = abs(zl) / m.m
+    if np.max(np.abs(dZ - exp)) > 1e-9 * sc:
+        k = int(np.argmax(np.abs(np.diag(dZ - exp))))
+        got = dZ[k, k] / (-1j / m.m * (2.0 if (m.media and m.pulses[k].ground.any()) else 1.0))
+        return ('a %r ohm load attached to [%s]: pulse %d carries %r ohm, the attachments name it %d time(s)'
+                % (zl, '; '.join(desc), k + 1, complex(np.round(got, 6)), want.get(k, 0)))
+    # a source in either form
+    t = rng.choice(nonempty) if nonempty else None
+    forms = [('abs', rng.randrange(N), None)]
+    if t is not None:
+        k = rng.randrange(len(rows[t])); forms.append(('rel', k, t))
+    for kind, a, b in forms:
+        s = Excitation(complex(2.0, -1.0))
+        if kind == 'abs':
+            m.register_source(s, a); p = a
+        else:
+            m.register_source(s, a, b); p = rows[b][a]
+        try:
+            m.compute_rhs()
+            rhs = m.rhs.copy()
+        finally:
+            m.sources.remove(s); m.rhs = None
+        nz = [int(i) for i in np.nonzero(rhs)[0]]
+        if nz != [p]:
+            return 'a source on %s excites pulses %r, the geometry table names pulse %d' % (
+                'absolute pulse %d' % (a + 1) if kind == 'abs' else 'pulse %d of object %d' % (a + 1, b), [i + 1 for i in nz], p + 1)
+    return None
+
+
 def replay(rp):
+    if rp.get('kind') == 'action':
+        m = topo.build_impl(rp['spec'])
+        bad = action_property(m, None, seed=rp['action_seed'])
+        print('replay ->', bad or 'property holds')
+        return 1 if bad else 0
     spec = rp.get('spec')
     if not spec:
         print('replay: nothing to execute:', rp.get('kind'))
@@ -208,6 +292,16 @@ def run(ck):
                     why = 'source/load listing for pulse %d' % (p + 1)
         if why:
             dis.append(dict(spec=spec, why=why))
+        elif i % 2 == 0 and 0 < len(obs['pulses']) <= 25:
+            aseed = ck.rng.randrange(10 ** 9)
+            ck.count('action_cases')
+            try:
+                bad = action_property(m, None, seed=aseed)
+            except Exception as e:
+                bad = 'evaluation raised %s: %s' % (type(e).__name__, e)
+            if bad:
+                ck.violation(dict(kind='action', spec=spec, action_seed=aseed, observed=bad))
+                return
     ck.stats['disagreements'] = len(dis)
     ck.stats['queries'] = nq
     ck.cov['rule'] = ('random wire graphs with automatic / explicit permuted / sparse / mixed tags; every absolute number -1..N+1, '
